@@ -252,7 +252,7 @@ def check(ctx):
     # the channel extractor's own predicate, read from the type-checked body: is_channel_segment where it exists as a function, otherwise the
     # accepting (Some-returning) paths of extract_channel_message_type with whatever was folded into it
     from predtable import accept_paths, len_range, positive
-    cands = [(f_, "true") for f_ in P.find("ChannelParser::is_channel_segment")] or [(f_, "some") for f_ in P.find("ChannelParser::extract_channel_message_type")]
+    cands = [(f_, "true") for f_ in P.find("ChannelParser::is_channel_segment") if f_.id.endswith("is_channel_segment")] or [(f_, "some") for f_ in P.find("ChannelParser::extract_channel_message_type")]
     if not cands:
         r2.bad(V(r2.id, "<anchor>", "missing:is_channel_segment", "anchor not found"))
     for (cf, mode) in cands[:1]:
@@ -320,6 +320,15 @@ def check(ctx):
                 r2.bad(V(r2.id, f.id, "channel-filters:%s" % ",".join(sorted(extra)), "branches on %s can drop a channel parameter" % extra, c.file, c.line))
             else:
                 r2.ok("every channel-typed identifier parameter is pushed")
+            # ... and the loop over the parameters is not left before the last one (a `break` on a receiver / destructured parameter loses every
+            # channel declared after it)
+            from rulelib import loop_exits
+            drv, exits = loop_exits(f, c.bb)
+            for (b_, to_, cond_, kind_) in exits:
+                r2.bad(V(r2.id, f.id, "parameter-loop-left-early:%s" % kind_, "the loop over the command's parameters is left by `%s` under `%s`: channel "
+                         "parameters declared after that point are not extracted" % (kind_, cond_), c.file, c.line))
+            if drv is not None and not exits:
+                r2.ok("the parameter loop of the channel extractor runs over all inputs")
     r2.require_floor(4, "channel facts")
     rules.append(r2)
 
